@@ -58,7 +58,13 @@ def indices_for(rng, f):
 
 def oob_indices(f):
     K = fcount(f)
-    return [K, K + 1, 2 * K, USIZE_MAX]
+    out = [K, K + 1, 2 * K, USIZE_MAX]
+    s = fstride(f)
+    if s >= 2:
+        # an index whose product with the stride wraps around 2^64 to a small number
+        out.append(-(-(1 << 64) // s))
+        out.append(1 << 63)
+    return out
 
 
 def writable_ok(f):
@@ -178,4 +184,17 @@ def gen_field_cases(d, f, kind, by_name, rng, n_random=300):
                 for v in vals:
                     tail = [('G', f['name'], i)] if 'r' in f['acc'] else []
                     scen.append((r, [(opk, f['name'], i, v)] + tail))
+        # two writes in a row, then every observation: state that one write hides and the next reveals
+        m = (1 << n) - 1
+        if not is_enum:
+            pairs = [(m, 0), (m, 1), (m >> 1, 1 << (n - 1)), (int('AA' * 16, 16) & m, int('55' * 16, 16) & m)]
+        else:
+            pairs = [(a, b) for a in vals[:3] for b in vals[:3] if a != b]
+        for r in raws[:6]:
+            for i in idxs[:4]:
+                for v1, v2 in pairs:
+                    ops = [(opk, f['name'], i, v1), (opk, f['name'], i, v2)]
+                    ops += [('G', g['name'], j) for g in d['fields'] if 'r' in g['acc'] for j in range(min(fcount(g), 3))]
+                    ops.append(('R',))
+                    scen.append((r, ops))
     return scen
